@@ -307,6 +307,14 @@ func Allowed(ev *Event, s *State) Result {
 		if !federated() {
 			return deny("m.federate")
 		}
+		if c.s.Version == "org.matrix.msc4014" {
+			// D2 (pseudo-ID rooms): the library deliberately compares the state key with the sender ID there
+			// (explicit case in aliasEventAllowed), a sender has no server of its own in such rooms
+			if ev.StateKey == nil || *ev.StateKey != ev.Sender {
+				return deny("aliases state key is not the sender ID (pseudo-ID rooms)")
+			}
+			return allow("aliases")
+		}
 		if ev.StateKey == nil || *ev.StateKey != senderDomain {
 			return deny("aliases state key is not the sender's server")
 		}
